@@ -52,14 +52,39 @@ type conn struct {
 	ended  bool
 }
 
+type kept struct {
+	m    *entities.Message
+	c, i int
+	proj string
+}
+
 type sys struct {
 	w     *vt.Writer
 	cp    *collector.CollectingProcess
 	conns map[int]*conn
 	real  bool
+	kept  []kept // delivered messages, re-projected at the end of the run
+}
+
+func projString(m *entities.Message) string {
+	if m.GetSet().GetSetType() == entities.Template {
+		tid, fields := coll.ProjectTemplate(m)
+		return fmt.Sprint(tid, fields)
+	}
+	recs, _, err := coll.ProjectData(m)
+	return fmt.Sprint(recs, err)
+}
+
+// recheck: what the consumer was handed must still read the same once later messages have arrived.
+func (s *sys) recheck() {
+	for idx, k := range s.kept {
+		s.w.Emit(vt.Ev{"e": "Recheck", "c": k.c, "n": idx + 1, "same": projString(k.m) == k.proj})
+	}
+	s.kept = nil
 }
 
 func (s *sys) logDeliver(m *entities.Message) {
+	s.kept = append(s.kept, kept{m: m, c: int(m.GetObsDomainID()), proj: projString(m)})
 	ev := vt.Ev{"e": "Deliver", "dom": vt.Limbs(m.GetObsDomainID()), "seq": vt.Limbs(m.GetSequenceNum())}
 	ev["c"] = int(m.GetObsDomainID())
 	if m.GetSet().GetSetType() == entities.Template {
@@ -129,6 +154,7 @@ func (s *sys) closeClient(c *conn) {
 
 // waitEnd waits until every connection has ended (or reports a leak).
 func (s *sys) waitEnd() {
+	defer s.recheck()
 	deadline := time.Now().Add(5 * time.Second)
 	for time.Now().Before(deadline) {
 		all := true
@@ -202,12 +228,13 @@ var (
 	sU8  = absv.Spec{ID: 4, Len: 1}
 	sU16 = absv.Spec{ID: 7, Len: 2}
 	sStr = absv.Spec{ID: 82, Len: 65535}
+	sOct = absv.Spec{ID: 313, Len: 65535} // ipHeaderPacketSection: a variable-length octet array
 )
 
 // stream builds the messages of connection c: a template and data messages; bad >= 0 replaces the
 // message at that position by an undecodable one of the given flavour.
 func stream(c int, ndata int, bad int, flavour int, r *rand.Rand) [][]byte {
-	msgs := [][]byte{absv.Message(1, 0, uint32(c), 2, absv.TemplateBody(256, []absv.Spec{sU8, sStr, sU16}))}
+	msgs := [][]byte{absv.Message(1, 0, uint32(c), 2, absv.TemplateBody(256, []absv.Spec{sU8, sStr, sU16, sOct}))}
 	for i := 1; i <= ndata; i++ {
 		var body []byte
 		for k := 0; k < 1+r.Intn(2); k++ {
@@ -220,6 +247,11 @@ func stream(c int, ndata int, bad int, flavour int, r *rand.Rand) [][]byte {
 			body = append(body, absv.VarPrefix(n)...)
 			body = append(body, str...)
 			body = append(body, byte(r.Intn(256)), byte(r.Intn(256)))
+			on := 1 + r.Intn(5)
+			body = append(body, byte(on))
+			for j := 0; j < on; j++ {
+				body = append(body, byte(1+r.Intn(255)))
+			}
 		}
 		msgs = append(msgs, absv.Message(2, uint32(i), uint32(c), 256, body))
 	}
@@ -319,6 +351,27 @@ func main() {
 			for j := i; j <= len(b); j++ {
 				runCuts(b, []int{i, j}, "cut2all")
 			}
+		}
+	}
+	// a long pause INSIDE a message (after the length prefix, inside the header, inside the body): the
+	// stream is still the same stream
+	{
+		b := concat(stream(1, 2, -1, 0, rand.New(rand.NewSource(11))))
+		first := len(stream(1, 2, -1, 0, rand.New(rand.NewSource(11)))[0])
+		for _, cut := range []int{first + 5, first + 18, first + 24} {
+			evals++
+			s := newPipeSys(w, "slowcut", 1)
+			c := s.conns[1]
+			s.write(c, b[:cut])
+			s.pump(nil, 450*time.Millisecond)
+			if !c.ended {
+				s.write(c, b[cut:])
+			}
+			if !c.ended {
+				s.closeClient(c)
+			}
+			s.waitEnd()
+			c.client.Close()
 		}
 	}
 	// byte-by-byte, and messages whose length field lies (shorter / longer than the message)
